@@ -21,7 +21,7 @@ def run(ctx):
     if p.returncode != 0:
         raise vlib.Infra("dict driver failed: " + p.stderr[-2000:])
     lines = vlib.read_ndjson(tpath)
-    bad, st = vlib.tlc_validate(ctx.scratch, "DictTrace", "DictTrace.cfg", lines, timeout=2400, chunk=max(50, len(lines) // 16 + 1))
+    bad, st = vlib.tlc_validate(ctx.scratch, "DictTrace", "DictTrace.cfg", lines, timeout=2400, chunk=min(400, max(50, len(lines) // 16 + 1)), heap_mb=2500)
     kinds = {}
     for l in lines:
         kinds[l["ev"]] = kinds.get(l["ev"], 0) + 1
